@@ -87,7 +87,7 @@ func e2eWindow(a *Association) uint32 {
 
 type e2eStats struct {
 	arrivals, reads, acceptFull, bufferFullEvents, hostile, idataCases, limitCases, smallBufCases int
-	resets, resetsWithData, detachedReads, windowMismatch                                        int
+	resets, resetsWithData, detachedReads, windowMismatch                                         int
 }
 
 func e2eRunCase(w *bufio.Writer, rng *rand.Rand, name string, nOps int, st *e2eStats) {
